@@ -212,10 +212,12 @@ def long_history(n, seed):
         same_text = [("date", day), ("str", day), ("guid", guid), ("str", guid), ("time", "12:%02d:%02d" % (i % 60, i % 59)),
                      ("str", "12:%02d:%02d" % ((i + 1) % 60, (i + 1) % 59)), ("datetime", day + "T10:00:00Z"), ("str", day + "T10:00:00Z"),
                      ("str", "7"), ("int", "7"), ("str", "true"), ("str", "null"), ("str", "P1D"), ("duration", "P1D")]
-        term = [("cmp", "eq", ident("field_%d" % i), ("lit", "int", str(i))),
+        # names that differ from an earlier one only in letter case, in either order of first appearance
+        nm = ["field_%d", "Field_%d", "FIELD_%d", "fIELD_%d"][i % 4] % (i // 4)
+        term = [("cmp", "eq", ident(nm), ("lit", "int", str(i))),
                 ("cmp", "in", ("path", ident("p%d" % i), "q%d" % (i % 7)),
                  ("list", (("lit", "str", "v%d" % i), ("lit", "int", str(i % 3)), ("lit", "int", str(i % 3))))),
-                ("call", "f%d" % i, ("ns%d" % (i % 5),), (ident("a%d" % i),)),
+                ("call", ["f%d", "F%d"][i % 2] % (i // 2), (["ns%d", "Ns%d"][(i // 2) % 2] % (i % 5),), (ident(["a%d", "A%d"][i % 2] % (i // 2)),)),
                 ("lambda", ident("coll%d" % i), "any", "x", ("cmp", "gt", ("path", ident("x"), "n%d" % i), ("lit", "int", "1"))),
                 ("bool", "and", ("cmp", "eq", ident("g%d" % i), ("lit", "str", "s%d" % i)), ("un", "not", ident("h%d" % i))),
                 ("cmp", "eq", ("call", "tolower", (), (ident("t%d" % i),)), ("lit", "str", "x" * (i % 40))),
